@@ -49,6 +49,14 @@ def evaluate(chk, graphs, variants, prop):
             chk.case(key, feats + ties, dict(cfg=cfg) if len(chk.samples) < 2 else None)
             chk.traces_impl += 1
             case = dict(cfg=cfg, variant=vn, node_phase=G["node_phase"], conn_phase=G["conn_phase"])
+            if prop == "C04":
+                # the phases in force follow from the DECLARED delays (longest expected-delay path over non-skipped connections), whatever the node objects report
+                try: want_n, want_c = al.cfg_phases(cfg)
+                except RecursionError: want_n = None
+                if want_n is not None and (want_n != G["node_phase"] or want_c != G["conn_phase"]):
+                    bad = next(k for k in list(want_n) + list(want_c) if dict(want_n, **want_c)[k] != dict(G["node_phase"], **G["conn_phase"]).get(k))
+                    chk.violation("phase-differs-from-declared-delays", f"phase of {bad}: rex {dict(G['node_phase'], **G['conn_phase']).get(bad)}, the declared delays give "
+                                  f"{dict(want_n, **want_c)[bad]} ticks", case)
             checker = ac.check_c03 if prop == "C03" else ac.check_c04
             vs = checker(cfg, G["node_phase"], G["conn_phase"], ep["record"])
             if prop == "C04": vs = vs + ac.check_sched_terms(cfg, G["node_phase"], G["conn_phase"], ep["record"])
